@@ -24,8 +24,17 @@ def err(e, stage):
     return {'err': type(e).__name__, 'msg': str(e)[:200], 'stage': stage}
 
 
+def _f(v):
+    v = float(v)
+    if v != v:
+        return 'nan'
+    if v in (float('inf'), float('-inf')):
+        return 'inf' if v > 0 else '-inf'
+    return v
+
+
 def fl(a):
-    return [float(v) for v in np.asarray(a, dtype='d').ravel()]
+    return [_f(v) for v in np.asarray(a, dtype='d').ravel()]
 
 
 def arr(v):
@@ -119,7 +128,11 @@ def run_combine(inloglam, flux, newloglam, ivar, kwargs):
 def do_combine(c):
     inloglam = arr(c['inloglam'])
     flux = arr(c['flux'])
+    if c.get('flux_dtype'):
+        flux = flux.astype(c['flux_dtype'])        # integer counts / float32 flux (values exactly representable)
     ivar = arr(c.get('ivar'))
+    if ivar is not None and c.get('ivar_dtype'):
+        ivar = ivar.astype(c['ivar_dtype'])
     newloglam = arr(c['newloglam'])
     kwargs = dict(c.get('kwargs') or {})
     try:
@@ -130,7 +143,7 @@ def do_combine(c):
     if 'scale' in ex:
         s = float(ex['scale'])
         try:
-            o2 = run_combine(inloglam, flux * s, newloglam, None if ivar is None else ivar / (s * s), kwargs)
+            o2 = run_combine(inloglam, flux.astype('d') * s, newloglam, None if ivar is None else ivar.astype('d') / (s * s), kwargs)
             out['scaled'] = {'newflux': o2['newflux'], 'newivar': o2['newivar']}
         except Exception as e:  # noqa: BLE001
             out['scaled'] = err(e, 'combine1fiber')
@@ -187,8 +200,7 @@ def main():
             res.append(do_preprocess(c))
         else:
             res.append({'err': 'BadCall', 'stage': 'harness'})
-    out = json.dumps({'pydl_file': pydl.__file__, 'results': res})
-    real_stdout.write(out.replace('NaN', '"nan"').replace('-Infinity', '"-inf"').replace('Infinity', '"inf"'))
+    real_stdout.write(json.dumps({'pydl_file': pydl.__file__, 'results': res}, allow_nan=False))
 
 
 if __name__ == '__main__':
